@@ -75,6 +75,13 @@ func ifaceMethodKey(t types.Type, method string) string {
 // inside inlined helpers count (the helper's text is part of the function being verified).
 func (tr *Trans) call(c *ssa.CallCommon, in ssa.Instruction, resT types.Type) Val {
 	r := tr.callInner(c, in, resT)
+	// `lastrecv_<method>`: the receiver of the latest call of a method on this path (kept in the state, so it is
+	// path-sensitive): lets an in-body assert say "this call is made on the object that call was made on"
+	if sc := c.StaticCallee(); sc != nil && sc.Signature.Recv() != nil && len(c.Args) > 0 && !c.IsInvoke() {
+		if v := tr.val(c.Args[0]); len(v.C) == 1 && v.C[0].Sort == SInt {
+			tr.st.set("L$lastrecv$"+sc.Name(), v.C[0])
+		}
+	}
 	res := c.Signature().Results()
 	if res.Len() == 0 || len(r.C) == 0 {
 		return r
